@@ -161,6 +161,10 @@ class Check:
                     key = "%s:%s" % (cur_op, m.group(1) if m else "-")
                     self.outcomes[key] = self.outcomes.get(key, 0) + 1
                     cur_op = None
+                if line.startswith('{"e":"Sweep"'):
+                    d = json.loads(line)
+                    self.swept = getattr(self, "swept", 0) + d["n"]
+                    self.sweep_hits = getattr(self, "sweep_hits", 0) + d["hits"]
                 if line.startswith('{"e":"Reset"'):
                     resets.append((i, json.loads(line)["name"]))
                 elif line.startswith('{"e":"Begin"') or line.startswith('{"e":"Find"') or line.startswith('{"e":"Words"') \
@@ -276,6 +280,9 @@ class Check:
         )
         if self.exhaustive is not None:
             cov["exhaustive"] = self.exhaustive
+        if getattr(self, "swept", 0):
+            cov["random_tokens_swept_through_the_word_lookup"] = self.swept
+            cov["swept_tokens_the_library_accepted_each_judged_by_the_specification"] = self.sweep_hits
         cov.update(self.extra)
         ev = dict(property_id=self.pid, tier=self.tier, seed=self.seed, level=self.level, coverage=cov,
                   assumptions=self.assumptions, wall_s=round(wall, 1), violations=len(self.violations))
